@@ -208,7 +208,7 @@ pub fn block_shape(rng: &mut Rng, slot: u64) -> (Vec<SliceSpec>, &'static str) {
     let k = rng.range(1, 5);
     let p0 = (slot - 1 - rng.below(slot.min(2)), rng.range(1, 3));
     let mut specs: Vec<SliceSpec> = (0..k).map(|i| SliceSpec { idx: i, last: i + 1 == k, parent: if i == 0 { Some(p0) } else { None }, txs_ok: true, salt: rng.next() }).collect();
-    let shape = match rng.below(14) {
+    let shape = match rng.below(15) {
         0..=4 => "honest",
         5 => { if k > 1 { let i = rng.range(1, k - 1) as usize; specs[i].parent = Some((p0.0.saturating_sub(1), 7)); } "honest-handover" }
         6 => { specs[0].parent = None; "first-slice-without-parent" }
@@ -221,6 +221,8 @@ pub fn block_shape(rng: &mut Rng, slot: u64) -> (Vec<SliceSpec>, &'static str) {
         12 => { // contradictory last markers: an extra slice beyond the last / a second last
                 if rng.chance(1, 2) { specs.push(SliceSpec { idx: k, last: false, parent: None, txs_ok: true, salt: rng.next() }); "non-last-slice-beyond-last" }
                 else { specs.push(SliceSpec { idx: k, last: true, parent: None, txs_ok: true, salt: rng.next() }); "second-last-slice" } }
+        13 => { // a conflicting version of a slice that shows up only after the block is complete
+                let i = rng.below(k) as usize; let mut c = specs[i].clone(); c.salt = rng.next(); specs.push(c); "late-conflicting-slice" }
         _ => "honest-tag-flip",
     };
     (specs, shape)
@@ -228,7 +230,8 @@ pub fn block_shape(rng: &mut Rng, slot: u64) -> (Vec<SliceSpec>, &'static str) {
 
 pub fn deliveries(rng: &mut Rng, built: &[BuiltSlice], shape: &str) -> Vec<Deliver> {
     let mut dels = Vec::new();
-    for (si, _b) in built.iter().enumerate() {
+    let nmain = if shape == "late-conflicting-slice" { built.len() - 1 } else { built.len() };
+    for (si, _b) in built.iter().enumerate().take(nmain) {
         let mut idxs: Vec<usize> = (0..TOTAL_SHREDS).collect();
         rng.shuffle(&mut idxs);
         let take = match rng.below(6) { 0 => 32, 1 => 33, 2 => 64, 3 => rng.range(32, 64) as usize, 4 => rng.range(20, 40) as usize, _ => 40 };
@@ -244,6 +247,14 @@ pub fn deliveries(rng: &mut Rng, built: &[BuiltSlice], shape: &str) -> Vec<Deliv
         1 => rng.shuffle(&mut dels),              // fully interleaved
         2 => { let n = dels.len(); for _ in 0..n / 4 { let i = rng.below(n as u64) as usize; let j = rng.below(n as u64) as usize; dels.swap(i, j); } }
         _ => { dels.reverse(); }
+    }
+    if shape == "late-conflicting-slice" {
+        // the complete block first (every slice gets at least 32 shreds above), then shreds of the other version
+        let si = built.len() - 1;
+        let mut idxs: Vec<usize> = (0..TOTAL_SHREDS).collect();
+        rng.shuffle(&mut idxs);
+        let take = rng.range(1, 40) as usize;
+        for &k in idxs.iter().take(take) { dels.push(Deliver::Dissem(si, k, false)); }
     }
     if shape == "honest-tag-flip" {
         // one honest shred with its unsigned data/coding tag flipped, somewhere after the first shred
